@@ -3,7 +3,7 @@ from harness import core
 from harness.props import sqlcommon as SC
 
 PID = 'C04'
-THEOREMS = []
+THEOREMS = ['PyDBML.C04.inline_site', 'PyDBML.C04.inline_count', 'PyDBML.C04.never_both', 'PyDBML.C04.direction_left', 'PyDBML.C04.direction_right', 'PyDBML.C04.source_is_keyHolder', 'PyDBML.C04.constraint_iff_name', 'PyDBML.C04.actions_iff_set', 'PyDBML.C04.m2m_never_inline']
 MODULES = ['PyDBMLProofs.Props.C04']
 
 
